@@ -77,24 +77,24 @@ Definition take (n : nat) (s : string) : string := substring 0 n s.
 (* ATOM/TER records of PDBTrajectoryFile.write for one model; [single] = fewer than two chains.
    Returns the records and, per atom in chain-wise order, the number written in its ATOM record. *)
 Fixpoint pdb_atoms_res (single : bool) (cname rname : string) (resSeq : Z) (seg : string)
-  (atoms : list vatom) (atomIndex : nat) : list pdbrec * list Z * nat * Z :=
+  (atoms : list vatom) (atomIndex : nat) : list pdbrec * list Z * nat :=
   match atoms with
-  | [] => ([], [], atomIndex, 0%Z)
+  | [] => ([], [], atomIndex)
   | a :: rest =>
       let ser := match va_serial a with
                  | Some s => if single then s else Z.of_nat atomIndex
                  | None => Z.of_nat atomIndex
                  end in
-      let '(recs, nums, ai, last) := pdb_atoms_res single cname rname resSeq seg rest (S atomIndex) in
+      let '(recs, nums, ai) := pdb_atoms_res single cname rname resSeq seg rest (S atomIndex) in
       (PAtom (ser mod 100000) (take 4 (va_name a)) rname cname (resSeq mod 10000) (take 4 seg) (va_elem a) :: recs,
-       (ser mod 100000)%Z :: nums, ai, match rest with [] => ser | _ => last end)
+       (ser mod 100000)%Z :: nums, ai)
   end.
 Fixpoint pdb_atoms_chain (single ter : bool) (cname : string) (rs : list vres) (atomIndex : nat)
   : list pdbrec * list Z * nat :=
   match rs with
   | [] => ([], [], atomIndex)
   | r :: rest =>
-      let '(recs, nums, ai, _) :=
+      let '(recs, nums, ai) :=
         pdb_atoms_res single cname (take 3 (vr_name r)) (vr_resSeq r) (vr_seg r) (vr_atoms r) atomIndex in
       match rest with
       | [] => if ter then (recs ++ [PTer], nums, S ai) else (recs, nums, ai)
